@@ -6,9 +6,12 @@
      quara/objects/gate.py      : is_tp (both branches), is_cp
      quara/objects/mprocess.py  : is_sum_tp, is_cp
      quara/objects/qoperation.py: is_physical, generate_origin_obj, generate_zero_obj
-   [rtol] is an explicit argument of the two verdicts whose code does not pass rtol to numpy
-   (State.is_trace_one: np.isclose(tr, 1, atol=atol); Povm.is_identity_sum: np.allclose(sum, I, atol=atol));
-   the code as it stands corresponds to rtol = [np_rtol] = 1e-5 (numpy's default), the intended behaviour to rtol = 0.
+   [rtol] is an explicit argument of the two verdicts State.is_trace_one and Povm.is_identity_sum:
+     rtol = 0         the code AFTER the repairs fixes/C01-state-is-trace-one-rtol.diff / fixes/C01-povm-is-identity-sum-rtol.diff
+                      (np.isclose(tr, 1, atol=atol, rtol=0.0); np.allclose(sum, I, atol=atol, rtol=0.0)) -- this is the model the
+                      harness compares the implementation with and the one the positive theorems of Props/C01.v are about;
+     rtol = [np_rtol] the code AS CODED BEFORE those repairs (np.isclose(tr, 1, atol=atol); np.allclose(sum, I, atol=atol): numpy's
+                      default 1e-5) -- used only by the two [_refuted] theorems and to classify a disagreement in the harness.
    Complex moduli are compared in squared form (|z| <= t  iff  0 <= t /\ |z|^2 <= t^2), so no square root is needed. *)
 From Coq Require Import Arith Bool List.
 From QV.Core Require Import OF Sums Mat Cplx Psd.
